@@ -13,6 +13,7 @@ package memory
 
 import (
 	"bytes"
+	"errors"
 	"fmt"
 	"io"
 )
@@ -62,6 +63,73 @@ func errClass(err error) string {
 
 const maxChunks = 10
 
+var errInjected = errors.New("memory world: injected I/O fault")
+
+// flakyDev is the underlying writer of a streaming encryption: it refuses (accepting nothing) every write that would
+// carry the stream past failAt, `fails` times, and works again afterwards. What the stream then contains is C07's
+// subject; C19 cares that the caller's buffers are neither written nor kept while the caller carries on.
+type flakyDev struct {
+	buf           bytes.Buffer
+	failAt, fails int
+	fired         int
+}
+
+func (d *flakyDev) Write(p []byte) (int, error) {
+	if d.fails > 0 && d.buf.Len()+len(p) > d.failAt {
+		d.fails--
+		d.fired++
+		return 0, errInjected
+	}
+	return d.buf.Write(p)
+}
+
+// flakySrc is the ciphertext source of a streaming decryption, failing `fails` times once failAt bytes were delivered.
+type flakySrc struct {
+	r             *bytes.Reader
+	failAt, fails int
+	pos, fired    int
+}
+
+func (s *flakySrc) Read(p []byte) (int, error) {
+	if s.fails > 0 && s.pos >= s.failAt {
+		s.fails--
+		s.fired++
+		return 0, errInjected
+	}
+	if s.fails > 0 && s.pos+len(p) > s.failAt {
+		p = p[:s.failAt-s.pos] // deliver up to the fault position first
+	}
+	n, err := s.r.Read(p)
+	s.pos += n
+	return n, err
+}
+
+// ioFault draws, from the plan, whether and where the underlying writer / reader of the phase that begins fails
+// (fails == 0: nowhere). starts are the stream offsets at which the caller's steps (Write calls) begin, so that the
+// fault can be aimed at the middle of the operation, where the caller carries on afterwards.
+func (w *world) ioFault(total int, starts []int) (failAt, fails int) {
+	w.faultCtr++
+	switch w.pl.ioFault[w.faultCtr%len(w.pl.ioFault)] {
+	case 2:
+		return 0, 1 // the very first underlying call (the header)
+	case 3:
+		return 48, 1 + w.faultCtr%2 // behind the header: the first segment
+	case 4, 5:
+		if len(starts) > 0 {
+			return 48 + starts[(w.faultCtr/2)%len(starts)], 1 + w.faultCtr%2 // the first segment flushed during (or after) a drawn step
+		}
+		return total / 2, 1
+	case 6:
+		return total, 1 // near the end: typically the last segment
+	}
+	return 0, 0
+}
+
+// faultPlanned: does the plan have a fault for the next phase? (peek, so that the operation can be given a shape in which a fault matters)
+func (w *world) faultPlanned() bool {
+	return w.pl.ioFault[(w.faultCtr+1)%len(w.pl.ioFault)] >= 2
+}
+
 // stepStream: one complete streaming encryption and decryption, step by step.
 func (w *world) stepStream(arg int) {
 	var p *prim
@@ -74,13 +142,19 @@ func (w *world) stepStream(arg int) {
 		return
 	}
 	if p.stream == nil {
+		w.inStream = true
 		w.stepOp(arg)
+		w.inStream = false
 		return
 	}
 	w.tolerate = p.lenient
 	defer func() { w.culprit, w.tolerate = "", false }()
 	w.shapeCtr++
-	msg := w.data(w.pl.msgLens[w.shapeCtr%len(w.pl.msgLens)])
+	ml := w.pl.msgLens[w.shapeCtr%len(w.pl.msgLens)]
+	if w.faultPlanned() {
+		ml += 1200 // several segments and several Write calls: a fault in the middle leaves the caller something to carry on with
+	}
+	msg := w.data(ml)
 	aad := w.data(w.pl.auxLens[w.shapeCtr%len(w.pl.auxLens)])
 
 	// ---- encryption
@@ -98,30 +172,41 @@ func (w *world) stepStream(arg int) {
 		}
 	}
 	point := w.flipPoint(1 + len(chunks))
-	aadB := w.in(opW, "associated data", aad, w.nextSpare())
-	var dev bytes.Buffer
+	var sbufs []*Buf // every buffer handed over during this operation: all of them stay the caller's to the end
+	big := len(msg) + len(aad) + 128
+	aadB := w.in(opW, "associated data", aad, w.nextSpareFor(big))
+	sbufs = append(sbufs, aadB)
+	dev := &flakyDev{}
+	var starts []int
+	for i, off := 0, 0; i < len(chunks); i++ {
+		starts = append(starts, off)
+		off += len(chunks[i])
+	}
+	dev.failAt, dev.fails = w.ioFault(len(msg), starts)
+	faulty := dev.fails > 0
 	var wr io.WriteCloser
 	var err error
 	func() {
 		defer w.catch(opW)
-		wr, err = p.stream.NewEncryptingWriter(&dev, aadB.Slice())
+		wr, err = p.stream.NewEncryptingWriter(dev, aadB.Slice())
 	}()
 	w.done(opW)
 	w.obsErr(opW, "err", err)
 	w.setAdd("ops", opW)
 	if err != nil || wr == nil {
-		if !w.faulted && !p.lenient {
+		if !w.faulted && !p.lenient && !faulty {
 			w.fatalf("%s of %s failed in the pristine world: %v", opW, p.ent.name, err)
 		}
 		return
 	}
-	w.obsRand(opW, "device", dev.Bytes())
+	w.obsRand(opW, "device", dev.buf.Bytes())
 	if point == 0 {
 		w.mutateNow(aadB, opW, "stream-aad-flipped-before-first-write")
 	}
 	for i, c := range chunks {
 		op := opW + ".Write"
-		cb := w.in(op, "chunk", c, w.nextSpare())
+		cb := w.in(op, "chunk", c, w.nextSpareFor(big))
+		sbufs = append(sbufs, cb)
 		if len(c) == 0 {
 			w.r.Probe("write-zero-len-chunk")
 		}
@@ -131,14 +216,19 @@ func (w *world) stepStream(arg int) {
 			n, err = wr.Write(cb.Slice())
 		}()
 		w.done(op)
+		w.checkBufs(op, sbufs) // the buffers of the earlier steps too: their calls have returned, they are the caller's
 		w.obsS(op, "n err", fmt.Sprint(n, errClass(err)))
-		w.obsRand(op, "device", dev.Bytes())
+		w.obsRand(op, "device", dev.buf.Bytes())
 		w.setAdd("ops", op)
 		if err != nil {
-			if !w.faulted && !p.lenient {
-				w.fatalf("%s of %s failed in the pristine world: %v", op, p.ent.name, err)
+			if !faulty {
+				if !w.faulted && !p.lenient {
+					w.fatalf("%s of %s failed in the pristine world: %v", op, p.ent.name, err)
+				}
+				return
 			}
-			return
+			// the underlying writer failed: the caller carries on with its other buffers (and Close) all the same
+			w.r.Probe("stream-write-continued-after-io-error")
 		}
 		if point == i+1 {
 			w.mutateNow(cb, op, "stream-chunk-flipped-after-write")
@@ -148,32 +238,41 @@ func (w *world) stepStream(arg int) {
 		defer w.catch(opW + ".Close")
 		err = wr.Close()
 	}()
+	w.checkBufs(opW+".Close", sbufs)
 	w.obsErr(opW+".Close", "err", err)
-	w.obsRand(opW+".Close", "device", dev.Bytes())
+	w.obsRand(opW+".Close", "device", dev.buf.Bytes())
 	w.setAdd("ops", opW+".Close")
-	if err != nil {
+	if dev.fired > 0 {
+		w.r.Probe("stream-device-fault-fired")
+	}
+	if err != nil && !faulty {
 		if !w.faulted && !p.lenient {
 			w.fatalf("%s.Close of %s failed in the pristine world: %v", opW, p.ent.name, err)
 		}
 		return
 	}
 	w.culprit = ""
-	ct := bytes.Clone(dev.Bytes())
+	ct := bytes.Clone(dev.buf.Bytes())
+	wfaulty := dev.fired > 0 // the stream may be damaged: what decrypting it gives is an observation only
 
 	// ---- decryption under the original aad, into caller-supplied buffers
 	opR := p.opA
 	point = w.flipPoint(4)
-	aadR := w.in(opR, "associated data", aad, w.nextSpare())
+	aadR := w.in(opR, "associated data", aad, w.nextSpareFor(big))
+	sbufs = append(sbufs, aadR)
+	src := &flakySrc{r: bytes.NewReader(ct)}
+	src.failAt, src.fails = w.ioFault(len(ct), starts)
+	faulty = src.fails > 0 || wfaulty
 	var rd io.Reader
 	func() {
 		defer w.catch(opR)
-		rd, err = p.stream.NewDecryptingReader(bytes.NewReader(ct), aadR.Slice())
+		rd, err = p.stream.NewDecryptingReader(src, aadR.Slice())
 	}()
 	w.done(opR)
 	w.obsErr(opR, "err", err)
 	w.setAdd("ops", opR)
 	if err != nil || rd == nil {
-		if !w.faulted && !p.lenient {
+		if !w.faulted && !p.lenient && !faulty {
 			w.fatalf("%s of %s failed in the pristine world: %v", opR, p.ent.name, err)
 		}
 		return
@@ -183,7 +282,7 @@ func (w *world) stepStream(arg int) {
 	}
 	op := opR + ".Read"
 	var got []byte
-	stalls := 0
+	stalls, failures := 0, 0
 	for reads := 0; reads < 200+len(msg); reads++ { // generous: io.Reader promises no delivery rate
 		rl := w.nextReadLen()
 		if stalls >= 2 || (reads >= 24 && rl < 512) {
@@ -192,6 +291,7 @@ func (w *world) stepStream(arg int) {
 		sp := w.nextSpare()
 		fill := bytes.Repeat([]byte{0x5a}, rl)
 		rb := w.in(op, "read buffer", fill, sp)
+		sbufs = append(sbufs, rb)
 		rb.OpenSink()
 		if rl == 0 {
 			w.r.Probe("read-zero-len-buffer")
@@ -209,6 +309,9 @@ func (w *world) stepStream(arg int) {
 			w.r.Probe("read-buffer-tail-used-as-scratch")
 		}
 		w.done(op) // spare capacity beyond len(p) and the canaries must be what they were
+		if reads < 40 {
+			w.checkBufs(op, sbufs) // earlier read buffers are the caller's again
+		}
 		if n < 0 || n > rl {
 			w.r.Violation("C19/read-overrun:"+op, fmt.Sprintf("%s of %s returned n = %d for a buffer of length %d (capacity %d)", op, p.ent.name, n, rl, rl+sp))
 			w.knownHits++
@@ -221,6 +324,12 @@ func (w *world) stepStream(arg int) {
 			w.mutateNow(rb, op, "stream-readbuf-flipped-after-read")
 		}
 		if err != nil {
+			failures++
+			if err != io.EOF && src.fired > 0 && failures <= 3 {
+				// the source failed: the caller tries again with another buffer
+				w.r.Probe("stream-read-continued-after-io-error")
+				continue
+			}
 			break
 		}
 		if n == 0 {
@@ -230,7 +339,10 @@ func (w *world) stepStream(arg int) {
 		}
 	}
 	w.obs(op, "plaintext", got)
-	if !w.faulted && !p.lenient && (err != io.EOF || !bytes.Equal(got, msg)) {
+	if src.fired > 0 {
+		w.r.Probe("stream-source-fault-fired")
+	}
+	if !w.faulted && !p.lenient && !faulty && (err != io.EOF || !bytes.Equal(got, msg)) {
 		// whether a stream decrypts to its plaintext is C07's subject, not C19's: counted, not raised
 		w.r.Count("stream-read-content-differs(C07's subject)", 1)
 	}
